@@ -15,15 +15,16 @@ NP = 4      # predicates
 ND = 3      # data inputs (3 bits each)
 
 
-def gen_tree(rng, depth, targets, maxsib):
+def gen_tree(rng, depth, targets, maxsib, nested=False):
     items = []
     for _ in range(rng.randint(1, maxsib)):
-        p = 'o' if (items and rng.random() < 0.3) else rng.randrange(NP)
+        # `otherwise` after any sibling; inside a branch also as the very first clause of its level
+        p = 'o' if ((items and rng.random() < 0.3) or (nested and not items and rng.random() < 0.15)) else rng.randrange(NP)
         body = []
         for __ in range(rng.randint(0, 2)):
             body.append(('asg', rng.choice(targets), rng.randrange(ND)))
         if depth > 0 and rng.random() < 0.6:
-            body.append(('sub', gen_tree(rng, depth - 1, targets, maxsib)))
+            body.append(('sub', gen_tree(rng, depth - 1, targets, maxsib, nested=True)))
         if rng.random() < 0.3:
             body.append(('asg', rng.choice(targets), rng.randrange(ND)))
         items.append((p, body))
@@ -231,8 +232,75 @@ def one_tree(ctx, k):
     ctx.sample({'tree': repr(tree)[:300], 'assignments': len(asgs), 'defaults': use_defaults})
 
 
+def multi_block(ctx, k):
+    """several conditional_assignment blocks in one design: a defaults table shared by two of them (the same dict
+    object), and a 1-bit memory read used directly as a predicate"""
+    rng = ctx.rng
+    pyrtl.reset_working_block()
+    a, b, c = Input(1, 'a'), Input(1, 'b'), Input(1, 'c')
+    sel = Input(2, 'sel')
+    x, y = Input(3, 'x'), Input(3, 'y')
+    w1, w2, w3 = WireVector(3, 'w1'), WireVector(3, 'w2'), WireVector(3, 'w3')
+    r = Register(3, 'r')
+    flags = MemBlock(1, 2, 'flags', asynchronous=True)
+    dv = {n: rng.randrange(8) for n in ('w1', 'w2', 'r')}
+    shared = {w1: dv['w1'], w2: dv['w2'], r: dv['r']}
+    order = rng.sample([0, 1, 2], 3)
+    for blk in order:
+        if blk == 0:
+            with pyrtl.conditional_assignment(defaults=shared):
+                with a:
+                    w1 |= x
+        elif blk == 1:
+            with pyrtl.conditional_assignment(defaults=shared):
+                with b:
+                    w2 |= y
+                    r.next |= r + 1
+        else:
+            with pyrtl.conditional_assignment:
+                with flags[sel]:
+                    w3 |= x
+                with c:
+                    w3 |= y
+                with pyrtl.otherwise:
+                    w3 |= 7
+    for n, w in (('o1', w1), ('o2', w2), ('o3', w3), ('or', r)):
+        o = Output(3, n)
+        o <<= w
+    init = {k_: rng.randrange(2) for k_ in range(4)}
+    replay = {'kind': 'multi-block', 'order': order, 'defaults': dv, 'flags': init}
+    try:
+        sim = pyrtl.Simulation(memory_value_map={flags: dict(init)})
+    except Exception as e:  # noqa
+        ctx.violation('multi-block-raises:' + type(e).__name__, 'a design with three conditional blocks raised %s: %s' % (type(e).__name__, str(e)[:120]), replay)
+        return
+    rv = 0
+    for cyc in range(6):
+        st = {'a': rng.randrange(2), 'b': rng.randrange(2), 'c': rng.randrange(2), 'sel': rng.randrange(4), 'x': rng.randrange(8), 'y': rng.randrange(8)}
+        sim.step(st)
+        want = {'o1': st['x'] if st['a'] else dv['w1'], 'o2': st['y'] if st['b'] else dv['w2'],
+                'o3': st['x'] if init[st['sel']] else (st['y'] if st['c'] else 7), 'or': rv}
+        got = {n: sim.inspect(n) for n in want}
+        ctx.evaluations += 1
+        if got != want:
+            bad = [n for n in want if got[n] != want[n]][0]
+            ctx.violation('multi-block-value:' + bad, 'three conditional blocks (two sharing one defaults dict, block order %r), cycle %d: %s = %d, expected %d' % (
+                order, cyc, bad, got[bad], want[bad]), dict(replay, cycle=cyc, inputs=st))
+            return
+        rv = (rv + 1) % 8 if st['b'] else dv['r']
+
+
 def main(ctx):
     proofs_ok = proof_gate(ctx, gen_modules=[])
+    for k in range(ctx.n(30, 400)):
+        try:
+            multi_block(ctx, k)
+        except pyrtl.PyrtlError as e:
+            ctx.violation('multi-block-raises:PyrtlError', 'a design with three conditional blocks raised PyrtlError: %s' % str(e)[:120], {'kind': 'multi-block'})
+            break
+        except Exception as e:  # noqa
+            ctx.violation('multi-block-raises:' + type(e).__name__, 'a design with three conditional blocks raised %s: %s' % (type(e).__name__, str(e)[:120]), {'kind': 'multi-block'})
+            break
     n = ctx.n(1500, 20000)
     if not proofs_ok:
         n *= 2
